@@ -1,39 +1,43 @@
-"""Generation of the per-run Coq file that proves the committed snapshot of the primary interpreter model
-(coq/Snapshot/GenCpu65.v, the target of the static C01 proofs) EQUAL to the model regenerated from the Go sources on
-this run (Gen/GenCpu65.v), function by function:
+"""Generation of the per-run Coq file that proves a committed snapshot of an interpreter model
+(coq/Snapshot/GenCpu65.v, the target of the static C01 proofs; coq/Snapshot/GenCpuAlt.v) EQUAL to the model regenerated
+from the Go sources on this run (Gen/<mod>.v), function by function:
 
-    Lemma seq_f : Snapshot.GenCpu65.f = Gen.GenCpu65.f.
-    Proof. unfold both; rewrite with the equalities of the callees; reflexivity. Qed.
+    Lemma seq_f : Snapshot.<mod>.f = Gen.<mod>.f.
+    Proof. cbv delta [both]; rewrite with the equalities of the callees; reflexivity. Qed.
 
-so that the static refinement theorem is transported to the regenerated model (and, through C02's equality, to the
-regenerated model of the alternative interpreter) by the kernel instead of by a textual comparison."""
-import re
+so that the static theorems about the snapshots (C01's refinement theorem; the equality of the two snapshots,
+Props/C02Snap.v) are transported to the regenerated models by the kernel instead of by a textual comparison.  The
+closing [reflexivity] is conversion, so a rewrite of the Go code that only renames, hoists a sub-expression into a
+local or extracts a pure helper function still goes through."""
 from checks import cpueq
 
 
-def generate(psnap, pgen, wanted=None):
+def generate(psnap, pgen, mod="GenCpu65"):
     os_, bs, prs, ts = cpueq.parse_model(psnap)
     og, bg, prg, tg = cpueq.parse_model(pgen)
-    out = ["""(* GENERATED per run by checks/snapeq.py: snapshot of the primary model = regenerated primary model *)
+    S, G = "Snapshot." + mod, "Gen." + mod
+    out = ["""(* GENERATED per run by checks/snapeq.py: snapshot of the model %s = regenerated model *)
 From Coq Require Import ZArith List Bool.
 From Lib Require Import ZOps Machine.
-Require Snapshot.GenFields Snapshot.GenCpu65 Gen.GenFields Gen.GenCpu65.
+From Snapshot Require GenFields %s.
+From Gen Require GenFields %s.
 Local Open Scope Z_scope.
-"""]
+""" % (mod, mod, mod)]
     lemmas, skipped = [], []
     for t in ts:
         if t in tg:
             base = t[:-5]
-            out.append("Lemma seqt_%s : Snapshot.GenCpu65.%s = Gen.GenCpu65.%s.\nProof. reflexivity. Qed." % (base, base, base))
+            out.append("Lemma seqt_%s : %s.%s = %s.%s.\nProof. reflexivity. Qed." % (base, S, base, G, base))
     for fld in ("opcode", "mode", "size", "cycles"):
-        out.append("Lemma seqt_tbl_%s : Snapshot.GenCpu65.tbl_%s = Gen.GenCpu65.tbl_%s.\nProof. reflexivity. Qed." % (fld, fld, fld))
+        out.append("Lemma seqt_tbl_%s : %s.tbl_%s = %s.tbl_%s.\nProof. reflexivity. Qed." % (fld, S, fld, G, fld))
     table_rw = ", ".join(["?seqt_%s" % t[:-5] for t in ts if t in tg] + ["?seqt_tbl_%s" % f for f in ("opcode", "mode", "size", "cycles")])
     done = set()
     tbl_done = False
 
     def emit_tbl_proc():
         rw = ", ".join("?seq_%s" % n for n in sorted(set(prs)) if n in done)
-        out.append("Lemma seq_tbl_proc : Snapshot.GenCpu65.tbl_proc = Gen.GenCpu65.tbl_proc.\nProof. cbv delta [Snapshot.GenCpu65.tbl_proc Gen.GenCpu65.tbl_proc]. rewrite %s. reflexivity. Qed." % rw)
+        out.append("Lemma seq_tbl_proc : %s.tbl_proc = %s.tbl_proc.\nProof. cbv delta [%s.tbl_proc %s.tbl_proc]. rewrite %s. timeout 60 reflexivity. Qed."
+                   % (S, G, S, G, rw))
         lemmas.append("seq_tbl_proc")
 
     for n in os_:
@@ -46,8 +50,8 @@ Local Open Scope Z_scope.
             tbl_done = True
         cs = [c for c in cpueq.callees(bs[n], os_) if c in done and c != n]
         rw = ", ".join(["?seq_%s" % c for c in cs] + (["?seq_tbl_proc"] if uses_tbl else []) + [table_rw])
-        out.append("Lemma seq_%s : Snapshot.GenCpu65.%s = Gen.GenCpu65.%s.\nProof. cbv delta [Snapshot.GenCpu65.%s Gen.GenCpu65.%s]. rewrite %s. reflexivity. Qed."
-                   % (n, n, n, n, n, rw))
+        out.append("Lemma seq_%s : %s.%s = %s.%s.\nProof. cbv delta [%s.%s %s.%s]. rewrite %s. timeout 60 reflexivity. Qed."
+                   % (n, S, n, G, n, S, n, G, n, rw))
         done.add(n)
         lemmas.append("seq_" + n)
     if not tbl_done:
